@@ -223,7 +223,17 @@ Fixpoint find_log (q : Q) (k : Z) (n : nat) : option Z :=
   | O => None
   | S n' => if near (q10 k) q then Some k else find_log q (k + 1) n'
   end.
-Definition exact_log10 (q : Q) : option Z := find_log q (-40) 81.
+(* The candidates are the few integers around (log2 num - log2 den) * log10 2: the bit lengths give log2 q
+   within 1, hence log10 q within 0.31 + the truncation, and at most one k can be `near`. *)
+Definition log10_est (q : Q) : Z :=
+  match Qnum q with
+  | Zpos n => ((Z.log2 (Zpos n) - Z.log2 (Zpos (Qden q))) * 30103) / 100000
+  | _ => 0
+  end%Z.
+Definition exact_log10 (q : Q) : option Z :=
+  let lo := Z.max (-40) (log10_est q - 2) in
+  let hi := Z.min 40 (log10_est q + 2) in
+  find_log q lo (Z.to_nat (hi - lo + 1)).
 
 (* f is (within tol) log10 q.  Only powers of ten are decidable here; the generators use nothing else. *)
 Definition log_ok (q f : Q) : bool :=
